@@ -655,7 +655,7 @@ fn run_hist(rng: &mut rand::rngs::StdRng) -> (Vec<Value>, Stop) {
         global_labels: vec![],
         global_prefix: None,
     };
-    let mut driver = Driver::new(cfg, 8192, false);
+    let driver = Driver::new(cfg, 8192, false);
     let rec = driver.recorder();
     let md = Metadata::new("t", Level::INFO, None);
     let h = rec.register_histogram(&Key::from_name("h1"), &md);
@@ -677,38 +677,44 @@ fn run_hist(rng: &mut rand::rngs::StdRng) -> (Vec<Value>, Stop) {
             }
         }));
     }
-    let slog = s.clone();
-    let sc = Scenario { aggressive: false, as_dist: false, prefix: false, labels: false, nc: 0, warm: vec![], progs: vec![], flushes: 0, setup_flush: false, sched: None };
-    hs.push(s.spawn(4, move || {
-        for _ in 0..nfl {
-            metrics::verif::point("flush.begin.post", &[]);
-            let payloads = driver.flush_once();
-            let mut vals: Vec<i64> = vec![];
-            let mut bad = 0i64;
-            for p in &payloads {
-                let text = String::from_utf8_lossy(p);
-                for line in text.lines() {
-                    let first = line.split('|').next().unwrap_or("");
-                    match first.split_once(':') {
-                        Some(("h1", vs)) => {
-                            for v in vs.split(':') {
-                                match v.parse::<f64>() {
-                                    Ok(x) => vals.push(x as i64),
-                                    Err(_) => bad += 1,
-                                }
+
+    let driver = std::sync::Arc::new(std::sync::Mutex::new(driver));
+    // one whole flush through State::flush, its histogram values logged as `flush.vals.post`
+    fn flush_and_log(driver: &std::sync::Mutex<Driver>, slog: &Sched) {
+        metrics::verif::point("flush.begin.post", &[]);
+        let payloads = driver.lock().unwrap().flush_once();
+        let mut vals: Vec<i64> = vec![];
+        let mut bad = 0i64;
+        for p in &payloads {
+            let text = String::from_utf8_lossy(p);
+            for line in text.lines() {
+                let first = line.split('|').next().unwrap_or("");
+                match first.split_once(':') {
+                    Some(("h1", vs)) => {
+                        for v in vs.split(':') {
+                            match v.parse::<f64>() {
+                                Ok(x) => vals.push(x as i64),
+                                Err(_) => bad += 1,
                             }
                         }
-                        _ => bad += 1,
                     }
+                    _ => bad += 1,
                 }
             }
-            let _ = &sc;
-            if bad > 0 {
-                slog.log(4, "flush.bad.post", &[bad]);
-            }
-            slog.log(4, "flush.vals.post", &vals);
         }
-    }));
+        if bad > 0 {
+            slog.log(4, "flush.bad.post", &[bad]);
+        }
+        slog.log(4, "flush.vals.post", &vals);
+    }
+    {
+        let (slog, driver) = (s.clone(), driver.clone());
+        hs.push(s.spawn(4, move || {
+            for _ in 0..nfl {
+                flush_and_log(&driver, &slog);
+            }
+        }));
+    }
     let stop = {
         let mut r2 = rng.clone();
         let mut rc = RandomChooser::new(&mut r2);
@@ -729,10 +735,28 @@ fn run_hist(rng: &mut rand::rngs::StdRng) -> (Vec<Value>, Stop) {
         }
         _ => s.release_all(),
     }
-    // what is still in the bucket: one more (unscheduled, unlogged) flush by the main thread cannot be done because the
-    // driver moved into the flusher; instead the final observation is left to the specification (Conservation at quiescence
-    // uses the chain reachable from the tail), and the harness only reports the run as complete.
-    let log = s.take_log();
+    // afterwards, with every pusher finished: two more whole flushes by a thread of its own (scheduled alone, so its
+    // bucket steps are logged like the others). Whatever was recorded must have been sent by now - a histogram that
+    // State::flush keeps skipping although its bucket holds values shows up here.
+    let mut log = s.take_log();
+    let mut drained = false;
+    if matches!(stop, Stop::Done) {
+        let s2 = Sched::new_filtered(1, false, &["push.", "blk.", "clr.", "rd.", "ie.", "hist.", "flush."]);
+        let (slog, driver) = (s2.clone(), driver.clone());
+        let h2 = s2.spawn(4, move || {
+            for _ in 0..2 {
+                flush_and_log(&driver, &slog);
+            }
+        });
+        let mut first = |w: &Waiting| -> usize { *w.keys().next().unwrap() };
+        if matches!(s2.run(20_000, &mut first), Stop::Done) {
+            let _ = h2.join();
+            drained = true;
+        } else {
+            s2.release_all();
+        }
+        log.extend(s2.take_log().into_iter().filter(|e| e.ev != "start.pre"));
+    }
     let mut namer = vh::trace::Namer::new();
     let mut ev = vec![json!({"p": 0, "ev": "reset", "a": [prefill]})];
     let mut in_empty = false;
@@ -763,7 +787,7 @@ fn run_hist(rng: &mut rand::rngs::StdRng) -> (Vec<Value>, Stop) {
         ev.push(json!({"p": p, "ev": site, "a": a}));
     }
     ev.push(match stop {
-        Stop::Done => json!({"p": 0, "ev": "quiet", "a": []}),
+        Stop::Done => json!({"p": 0, "ev": "quiet", "a": [drained as i64]}),
         Stop::Budget => json!({"p": 0, "ev": "livelock", "a": []}),
         Stop::Stuck => json!({"p": 0, "ev": "stuck", "a": []}),
     });
